@@ -20,6 +20,14 @@ def run(ctx):
         return
     # walks are stateful (cur): chunks are cut only at walkStart boundaries -> use contiguous chunking on a marker-free trace
     ctx.validate(TRACE_MODULE, tr, label="events", group_marker='{"e":"Reset"}')
+    # the language-level fallbacks (GLM_HAS_CXX11_STL == 0: nextafter / _nextafter bodies of ext/scalar_ulp and gtc/ulp) are separate
+    # code: the same events under GLM_FORCE_CXX98, judged by the same trace specification
+    b98 = ctx.build("c14_cxx98", "c14.cpp", flags=["-DGLM_FORCE_CXX98"], opt="-O2", label="c14 cxx98")
+    if b98:
+        tr98 = ctx.scratch.path("c14_cxx98.ndjson")
+        ok98, out98 = ctx.run_harness(b98, [tr98, "events", ctx.tier], tr98)
+        if ok98:
+            ctx.validate(TRACE_MODULE, tr98, label="events-cxx98", group_marker='{"e":"Reset"}')
     sw = ctx.scratch.path("c14sweep.ndjson")
     ok, out = ctx.run_harness(b, [sw, "sweep"], sw)
     if not ok:
